@@ -530,6 +530,8 @@ impl RingBuffer {
             ptr1.write_bytes(0, fill1);
             slice::from_raw_parts_mut(ptr1, fill1)
         };
+        #[cfg(killingspark_zstd_rs_verif)]
+        self.verif_op("z", fill1, ptr1 as usize - self.buf.as_ptr() as usize);
         read.read_exact(s1)?;
         if fill1 < fill_length {
             let fill2 = fill_length - fill1;
@@ -538,6 +540,8 @@ impl RingBuffer {
                 ptr2.write_bytes(0, fill2);
                 slice::from_raw_parts_mut(ptr2, fill2)
             };
+            #[cfg(killingspark_zstd_rs_verif)]
+            self.verif_op("z", fill2, ptr2 as usize - self.buf.as_ptr() as usize);
             read.read_exact(s2)?;
         }
         self.tail = (self.tail + fill_length) % self.cap;
